@@ -104,6 +104,32 @@ def cases(tier):
     return _cases(tier)
 
 
+def enumerate_cases(tier):
+    """Structural operands that random draws hit too rarely: non-simple homogeneous elements (B^B != 0) in d=4,5 for the series
+    functions and the composites, each with every storage variant incl. padding by a HIGHER-grade blade and the dense layouts."""
+    n_order = {4: list(range(16))[::-1], 5: list(range(32))[::-1]}
+    for sig in ([1, 1, 1, 1], [0, 1, 1, 1], [1, 1, -1, -1], [1, 1, 1, 1, 1]):
+        d = len(sig)
+        top = 2 ** d - 1
+        bases = [([3, 12], ["2", "3"]), ([5, 10, 12], ["1/2", "3", "-2"]), ([3, 5, 9, 6, 10, 12][::-1], ["2", "3", "5", "7", "1/3", "-1"])]
+        if d == 5:
+            bases = [([3, 12], ["2", "3"]), ([7, 24], ["1", "2"]), ([3, 12, 17], ["2", "3", "1/2"])]
+        for keys, vals in bases:
+            for op in ("outerexp", "outersin", "outercos", "normsq", "reverse", "sw", "inv"):
+                if op in ("sw", "inv") and len(keys) > 3:
+                    continue
+                for kind, pad in (("pad", [top]), ("pad", [top, 0]), ("pad+perm", [top - 1, top]), ("fullcanon", [0]), ("fullbin", [0]), ("perm", [0])):
+                    if kind.startswith("full") and (op in ("sw", "inv") or d == 5):
+                        continue
+                    case = {"cfg": {"sig": sig, "start": None, "basis": None}, "op": op, "wrapper": False,
+                            "a": {"cls": "structural", "keys": keys, "vals": vals},
+                            "va": {"kind": kind, "pad": pad, "order": n_order[d]}}
+                    if op == "sw":
+                        case["b"] = {"cls": "structural", "keys": [0, top], "vals": ["1", "2"]}
+                        case["vb"] = {"kind": "same", "pad": [0], "order": n_order[d]}
+                    yield case
+
+
 def make_variant(keys, vals, spec, d, zero):
     keys, vals = list(keys), list(vals)
     kind = spec["kind"]
